@@ -56,6 +56,7 @@ def configs(tier, seed):
              [["a", 2], ["r", 1], ["w", 1]], [["r", 1], ["xw", 1], ["w", 1]], [["a", 1], ["xa", 1], ["r", 1]],
              [["r", 2], ["a", 2], ["r", 2]],
              # the SAME MemoryMap.Name object handed in twice / a Name taken from resources() handed back
+             [["aa", 1], ["r", 1]], [["aa", 2], ["r", 1]], [["r", 1], ["aa", 1, 1]],
              [["rn", 1], ["same"]], [["rn", 2], ["r", 1], ["same"]], [["a", 1], ["back"]], [["a", 2, 1], ["r", 1], ["back"]]]
     for s in two + three:
         if sum(x for op in s for x in op[1:] if isinstance(x, int)) >= 5 and len(s) >= 3:
@@ -149,9 +150,24 @@ def harness_for(cfg):
                     E.prove(conf, "a legal name was refused")
                     E.prove(counts() == before, "refusal changed the map")
                 continue
-            sub = MemoryMap(addr_width=2, data_width=8)
+            sub = MemoryMap(addr_width=3 if kind == "aa" else 2, data_width=8)
             inner = []
-            if kind in ("w", "xw"):
+            if kind == "aa":
+                # an anonymous window inside an anonymous window: the deep names are visible at the top as well
+                deep = MemoryMap(addr_width=2, data_width=8)
+                for L in lens:
+                    nm = name(L)
+                    conf_in = b_or(*[_conflict(nm, v) for v in inner])
+                    try:
+                        deep.add_resource(Res(), name=nm, size=1)
+                        E.prove(b_not(conf_in), "a conflicting name was accepted inside a window")
+                        inner.append(nm)
+                    except ValueError:
+                        E.prove(conf_in, "a legal name was refused inside a window")
+                sub.add_window(deep)
+                wname = None
+                new_names = list(inner)
+            elif kind in ("w", "xw"):
                 wname = name(lens[0])
                 sub.add_resource(Res(), name=("leaf",), size=1)
                 new_names = [wname]
